@@ -231,7 +231,10 @@ def xtermLegacy (key : Int) (mods : Nat) (shifted : Int) (decckm : Bool) : Optio
   else if key = KeyEsc then (if mods = 0 then some (.c0 27) else none)
   else if key = KeyBackspace then (if mods = 0 then some (.print [127]) else if mods = altBit then some (.esc 127) else none)
   else if 32 ≤ key ∧ key < 127 then
-    if ctrl then
+    -- Shift on a non-letter key is not a chord the legacy protocol reports: it sends the other
+    -- character of the key (`!` for Shift+1) and nothing says which key produced it
+    if shift ∧ ¬(97 ≤ key ∧ key ≤ 122) then none
+    else if ctrl then
       if shift ∨ alt then none
       else match ctrlByte key with
         | some b => if b = 8 ∨ b = 9 ∨ b = 13 ∨ b = 27 then none else some (.c0 b)
@@ -240,8 +243,9 @@ def xtermLegacy (key : Int) (mods : Nat) (shifted : Int) (decckm : Bool) : Optio
       let ch := if shift then shifted else key
       if ch < 32 ∨ ch ≥ 127 then none
       else if alt then
-        -- ESC O, ESC P, ESC [, ESC ], ESC X, ESC ^, ESC _ introduce SS3 / DCS / CSI / OSC / SOS / PM / APC
-        (if ch = 79 ∨ ch = 80 ∨ ch = 91 ∨ ch = 93 ∨ ch = 88 ∨ ch = 94 ∨ ch = 95 ∨ ch = 92 then none else some (.esc ch))
+        -- ESC + 0x20–0x2F is an escape sequence with an intermediate byte; ESC O, ESC P, ESC [, ESC \,
+        -- ESC ], ESC X, ESC ^, ESC _ introduce SS3 / DCS / CSI / ST / OSC / SOS / PM / APC
+        (if ch < 48 ∨ ch = 79 ∨ ch = 80 ∨ ch = 91 ∨ ch = 93 ∨ ch = 88 ∨ ch = 94 ∨ ch = 95 ∨ ch = 92 then none else some (.esc ch))
       else some (.print [ch])
   else none
 
